@@ -417,8 +417,9 @@ def as_cond(c):
         return cmp('!=', c, C(0))
     if c[0] == 'call' and c[1][0] == 'g' and isinstance(c[1][1], str) and c[1][1].startswith(('$new_', '$obj')):
         return cmp('!=', call(G('len'), (c,)), C(0))       # a list / dict object is true iff it is non-empty
-    if c[0] in ('and', 'or') and any(_is_len(x) or x[0] in ('and', 'or', 'not') for x in c[1]):
-        return nary(c[0], tuple(as_cond(x) for x in c[1]))
+    if c[0] in ('and', 'or'):
+        parts = tuple(as_cond(x) for x in c[1])
+        return nary(c[0], parts) if parts != tuple(c[1]) else c
     if c[0] == 'not' and c[1][0] == 'call' and c[1][1][0] == 'g' and isinstance(c[1][1][1], str) and c[1][1][1].startswith(('$new_', '$obj')):
         return not_(as_cond(c[1]))
     if c[0] == 'not' and (_is_len(c[1]) or c[1][0] in ('and', 'or')):
